@@ -1,1 +1,3 @@
 import RaftProofs.Inflights
+import RaftProofs.Quorum
+import RaftProofs.ConfChange
